@@ -41,7 +41,7 @@ def main(argv=None):
         ctx = Ctx(pid, args.tier)
         mod = importlib.import_module('engine.rules.%s' % pid.lower())
         mod.run(ctx)
-        if args.tier == 'thorough' and not args.no_evidence and hasattr(mod, 'SELFTEST'):
+        if args.tier == 'thorough' and not args.no_evidence:
             from . import selftest
             selftest.run_for(ctx, pid)
         return finish(ctx, t0, write=not args.no_evidence, as_json=args.json)
